@@ -25,6 +25,7 @@ import (
 //	stale-positions       repeated in-place deletion at positions computed before the deletions
 //	range-copy-update     a field of a by-value range variable over a slice of structs is assigned,
 //	                      the element is never written back and the copy is not used afterwards
+//	rebase-mismatch       an offset found by Index*(buf[a:], …) is rebased with a base other than a
 //	merge-progress        two-cursor merge of sorted lists that steps the cursor of the larger side
 
 type idiomHit struct {
@@ -284,6 +285,76 @@ func idiomsOf(c *an.Ctx, d *an.FuncSrc) []idiomHit {
 		}
 		return true
 	})
+	// ---- an offset found in a sub-slice is rebased with another base
+	{
+		type found struct {
+			v    types.Object
+			base string
+			node ast.Node
+		}
+		var fs []found
+		ast.Inspect(body, func(m ast.Node) bool {
+			as, ok := m.(*ast.AssignStmt)
+			if !ok || len(as.Lhs) != 1 || len(as.Rhs) != 1 {
+				return true
+			}
+			ce, ok := ast.Unparen(as.Rhs[0]).(*ast.CallExpr)
+			if !ok || len(ce.Args) < 2 {
+				return true
+			}
+			cal := an.Callee(info, ce)
+			if cal == nil || cal.Pkg() == nil || (cal.Pkg().Path() != "bytes" && cal.Pkg().Path() != "strings") || !strings.Contains(cal.Name(), "Index") {
+				return true
+			}
+			se, ok := ast.Unparen(ce.Args[0]).(*ast.SliceExpr)
+			if !ok || se.Low == nil {
+				return true
+			}
+			id, ok := as.Lhs[0].(*ast.Ident)
+			if !ok {
+				return true
+			}
+			o := info.Defs[id]
+			if o == nil {
+				o = info.Uses[id]
+			}
+			if o != nil {
+				fs = append(fs, found{o, types.ExprString(se.Low), as})
+			}
+			return true
+		})
+		for _, fd := range fs {
+			ast.Inspect(body, func(m ast.Node) bool {
+				as, ok := m.(*ast.AssignStmt)
+				if !ok || len(as.Lhs) != 1 || len(as.Rhs) != 1 || as.Pos() <= fd.node.Pos() {
+					return true
+				}
+				id, ok := as.Lhs[0].(*ast.Ident)
+				if !ok || info.Uses[id] != fd.v {
+					return true
+				}
+				other := ""
+				switch as.Tok.String() {
+				case "+=":
+					other = types.ExprString(as.Rhs[0])
+				case "=":
+					if be, ok := ast.Unparen(as.Rhs[0]).(*ast.BinaryExpr); ok && be.Op.String() == "+" {
+						if x, ok := ast.Unparen(be.X).(*ast.Ident); ok && info.Uses[x] == fd.v {
+							other = types.ExprString(be.Y)
+						} else if y, ok := ast.Unparen(be.Y).(*ast.Ident); ok && info.Uses[y] == fd.v {
+							other = types.ExprString(be.X)
+						}
+					}
+				}
+				if other != "" && other != fd.base {
+					if _, isLit := ast.Unparen(as.Rhs[0]).(*ast.BasicLit); !isLit {
+						add("rebase-mismatch", as, d.Name()+" finds an offset in the sub-slice [..."+fd.base+":] and rebases it with "+other+": the offset then points "+other+"-"+fd.base+" bytes away from the byte that was found")
+					}
+				}
+				return true
+			})
+		}
+	}
 	// ---- merge progress
 	if f := c.P.Fn(d); f != nil {
 		for _, ml := range f.MergeLoops() {
@@ -308,7 +379,7 @@ func idiomsOf(c *an.Ctx, d *an.FuncSrc) []idiomHit {
 // idiomSweep arms the generic idioms for the packages of one property.  accepted lists, by
 // "function: idiom", the hits of the pinned tree that were read and found harmless (one reason each).
 func idiomSweep(c *an.Ctx, id string, pkgs []string, floor int, accepted map[string]string) {
-	r := c.Rule(id, "K-IDIOM(sweep)", "no function in the source files of this property's anchors ("+strings.Join(pkgs, ", ")+") contains one of the generic defect idioms (aliased compaction, pooled return, unassigned shadowed error, lost shadow store, removal inside an index loop, stale positions, update of a range copy, merge stepping the larger side)")
+	r := c.Rule(id, "K-IDIOM(sweep)", "no function in the source files of this property's anchors ("+strings.Join(pkgs, ", ")+") contains one of the generic defect idioms (aliased compaction, pooled return, unassigned shadowed error, lost shadow store, removal inside an index loop, stale positions, update of a range copy, sub-slice offset rebased with another base, merge stepping the larger side)")
 	n := 0
 	used := map[string]bool{}
 	// scope: the source files in which the rules of this property resolved a function (the files
